@@ -113,7 +113,8 @@ def interpolate_unit(h):
         built.append(s)
         return s
     h.model('new:' + PM + ':Interpolator', new_interp)
-    table = h.new(PM + ':PerformanceTable', _partial=True, mass=list(masses), _interpolators=({ph: stub_old} if cached else {}))
+    table = h.new(PM + ':PerformanceTable', _partial=True, mass=list(masses), fl=[h.real('level_a'), h.real('level_b'), h.real('level_c')],
+                  _interpolators=({ph: stub_old} if cached else {}))
     alt = h.real('altitude')
     mk = h.choice(3)
     mass = [h.real('mass'), 'min', 'max'][mk]
@@ -685,7 +686,10 @@ def native_model_check(payload):
                         if not (lo - 1e-9 <= v <= hi + 1e-9):
                             add('between-the-surrounding-table-values', input=tag, observed=f'{ph.value} FL{fl:.2f} mass {m:.0f}: {v} outside [{lo}, {hi}]')
             for ph in (SFR.CLIMB, SFR.CRUISE, SFR.DESCEND):
-                for alt, m, why in ((fls[-1] * 30.48 + 50.0, masses[1], 'above the top level'), (fls[0] * 30.48 - 50.0, masses[1], 'below the bottom level')) + \
+                # "outside" starts right at the edge: a millimetre is seven orders of magnitude above the rounding residue of the
+                # unit conversion (a few ulp), so it is outside for every reading of the statement
+                for alt, m, why in tuple((fls[-1] * 30.48 + dz, masses[1], f'{dz} m above the top level') for dz in (50.0, 1.0, 0.05, 0.001)) + \
+                        tuple((fls[0] * 30.48 - dz, masses[1], f'{dz} m below the bottom level') for dz in (50.0, 1.0, 0.05, 0.001)) + \
                         (((fls[0] * 30.48 + 1.0, masses[2] + 100.0, 'above the heaviest mass'), (fls[0] * 30.48 + 1.0, masses[0] - 100.0, 'below the lightest mass'))
                          if ph is not SFR.DESCEND else ()):
                     if alt < 0:
